@@ -416,17 +416,21 @@ class H:
                 ev = await stream.__anext__()
                 got.append(ev is e and ev.source is o and ev.topic == attr)
             same = getattr(o, attr) is getattr(o, attr)
+            ref1 = weakref.ref(o)
             del o, ev, e, stream
+            if ref1() is not None:
+                gc.collect()
+            collected = ref1() is None
             # 2. such an instance is collectable, and a new instance at its address gets
             # channels of its own.  Whether the allocator hands the freed block out again is
             # up to it: try (without a single suspension point, so that the number of tries
             # leaves no mark on the schedule) until it has.
-            collected = True
             fresh_ok = True
             for _attempt in range(12):
                 o = cls()
                 if other is not None:
                     getattr(o, other)
+                getattr(o, attr)
                 getattr(o, attr).dispatch(evc(-3 - rnd))
                 ref = weakref.ref(o)
                 old_id = id(o)
